@@ -36,6 +36,18 @@ def strat():
     return st.fixed_dictionaries({"program": P.program_strategy(cfg()), "pre_list": st.booleans()})
 
 
+def cfg_dense():
+    """Few qubits, many small sibling sub-circuits: the shapes in which sub-circuits become interchangeable."""
+    return P.GenCfg(kinds=["Wait", "Wait", "Rx180", "CPhase", "Barrier", "DispersiveMeasure", "Reset", "VirtualPark"], nq=3,
+                    max_items=4, max_depth=2, p_sub=55, p_rel=25, max_reps=3, top_reps=False, globals_=False,
+                    max_total_leaves=40)
+
+
+def strat_dense():
+    from hypothesis import strategies as st
+    return st.fixed_dictionaries({"program": P.program_strategy(cfg_dense()), "pre_list": st.sampled_from([True, True, False])})
+
+
 def compare_times(ctx, root: M.MCirc, mapping, what: str, facts):
     bad = []
     for n in root.all_nodes():
@@ -121,4 +133,5 @@ def body(case, ctx):
 
 
 def parts():
-    return [Part("programs", body, strategy=strat, quick=1500, thorough=6000)]
+    return [Part("dense_nesting", body, strategy=strat_dense, quick=1200, thorough=4000),
+        Part("programs", body, strategy=strat, quick=1500, thorough=6000)]
